@@ -15,7 +15,7 @@ tests=ok
 for i in 1 2; do
   if ( cd "$D/repo" && go test -vet=off -count=1 -timeout 90s ./... ) >"$D/test.log" 2>&1; then tests=ok; break; else tests=fail; fi
 done
-if [ $tests = fail ]; then echo "$NAME: FAILS-REPO-TESTS (not a valid mutant)"; grep -E "^(--- FAIL|FAIL)" "$D/test.log" | head -5; exit 4; fi
+if [ $tests = fail ]; then echo "$NAME: FAILS-REPO-TESTS (not a valid mutant)$( [ -n "${FORCE:-}" ] && echo ' — FORCE: running the checks anyway')"; grep -E "^(--- FAIL|FAIL)" "$D/test.log" | head -3; [ -n "${FORCE:-}" ] || exit 4; fi
 for id in "$@"; do
   out="$(cd /verif && VERIF_REPO="$D/repo" VERIF_OUT="$D/vd" ./check "$id" ${TIER:-quick} 2>&1)"; rc=$?
   case $rc in
